@@ -5,6 +5,7 @@ import (
 
 	"github.com/nyaruka/goflow/envs"
 	"github.com/nyaruka/goflow/excellent/types"
+	"github.com/shopspring/decimal"
 )
 
 // Concatenate joins two text values together.
@@ -103,8 +104,23 @@ var Divide = numericalBinary(func(env envs.Environment, num1 *types.XNumber, num
 //
 // @operator exponent "^"
 var Exponent = numericalBinary(func(env envs.Environment, num1 *types.XNumber, num2 *types.XNumber) types.XValue {
+	// the result has about (size of the base) x (exponent) digits, so that has to be limited
+	base := num1.Native()
+	baseSize := int64(base.NumDigits())
+	if e := int64(base.Exponent()); e < 0 {
+		baseSize -= e
+	} else {
+		baseSize += e
+	}
+	if num2.Native().Abs().Mul(decimal.New(baseSize, 0)).GreaterThan(maxExponentDigits) {
+		return types.NewXErrorf("result of exponentiation would have more than %s digits", maxExponentDigits)
+	}
+
 	return types.NewXNumber(num1.Native().Pow(num2.Native()))
 })
+
+// the largest number of digits that an exponentiation may produce
+var maxExponentDigits = decimal.New(100_000, 0)
 
 // LessThan returns true if the first number is less than the second.
 //
